@@ -69,6 +69,10 @@ def opCoerce : Handler := fun j => do
       pure <| Json.mkObj [("canon", optCanonJson outs K d (coerceY l m r)), ("documented", toJson (documentedY l r)),
                           ("isClass", toJson (isClass r)),
                           ("canonical", toJson (decide (coerceY l m r = some (canonY l m))))]
+  | "yfc" =>
+      let l ← getLogical j
+      pure <| Json.mkObj [("canon", optCanonJson outs K d (coerceYFloatClass r)), ("documented", toJson (documentedYFloatClass l r)),
+                          ("canonical", toJson (decide (coerceYFloatClass r = canonYFloatClass l)))]
   | o => throw s!"bad-op: role {o}"
 
 /-- `{"op":"output","logical":..,"mode":..,"api":"predict"|"predict_proba","outs":..,"K":..,"d":..}` -/
